@@ -16,7 +16,7 @@ PROP = "C12"
 
 @st.composite
 def cases(draw, tier="quick"):
-    c = draw(scenarios.scen_cases())
+    c = draw(scenarios.scen_cases(damage=True))
     c["seeds"] = draw(st.lists(st.integers(1, 10 ** 6), min_size=2, max_size=4, unique=True))
     c["feed"] = draw(st.sampled_from([1, 7, 511, 512, 513, 4096]))
     c["drain"] = draw(st.sampled_from([1, 7, 4096]))
@@ -107,6 +107,8 @@ def check_case(case, opts):
             compare(o, "stdout drained in %d-byte reads" % case["drain"])
             classes.append("drain_%d" % case["drain"])
         classes.append("rc_%s" % ref.rc)
+        if case.get("img_cut"):
+            classes.append("truncated_image")
         return CaseInfo(delivered > 0 and ncalls >= 2, classes, None)
 
 
